@@ -91,6 +91,9 @@ func c02Number(name string, nt int) (string, c02Num) {
 		default:
 			return i + "E-1", mk(i, 1)
 		}
+	case 11: // all-zero integer part and exactly three decimals: NOT the ambiguous shape of DESIGN 4.3
+		z, f := []string{"0", "00"}[zzverif.Choice(name+".zlen", 2)], d("f", 3)
+		return z + []string{".", ","}[zzverif.Choice(name+".mark", 2)] + f, mk(f, 3)
 	case 10: // fixed shape d.dd (no length choices)
 		i, f := d("i", 1), d("f", 2)
 		return i + "." + f, mk(i+f, 2)
@@ -301,7 +304,7 @@ func VerifC02Notation()     { verifC02Notation(false) }
 func VerifC02NotationDeep() { verifC02Notation(true) }
 
 func verifC02Notation(deep bool) {
-	nt := zzverif.Choice("nt", 10)
+	nt := []int{0, 1, 2, 3, 4, 5, 6, 7, 8, 9, 11}[zzverif.Choice("nt", 11)]
 	var ci, sp int
 	if deep {
 		ci = zzverif.Choice("comm", 5)
